@@ -23,6 +23,7 @@
 use crate::error::{ZiporaError, Result};
 use crate::memory::cache_layout::{CacheOptimizedAllocator, CacheLayoutConfig, align_to_cache_line, AccessPattern};
 use crate::memory::{get_optimal_numa_node, numa_alloc_aligned, numa_dealloc};
+use crate::memory::tagged_head::TaggedHead;
 // Memory pool integration (currently unused in this implementation)  
 // use crate::memory::SecureMemoryPool;
 use std::sync::{Arc, Mutex};
@@ -176,17 +177,17 @@ impl Default for FreeListHead {
 #[derive(Debug)]
 #[repr(align(64))]
 struct LockFreeFreeListHead {
-    head: AtomicU32,
+    head: TaggedHead, // offset + generation tag (ABA protection)
     count: AtomicU32,
-    _padding: [u8; 64 - 8], // Ensure 64-byte alignment
+    _padding: [u8; 64 - 12], // Ensure 64-byte alignment
 }
 
 impl Default for LockFreeFreeListHead {
     fn default() -> Self {
         Self {
-            head: AtomicU32::new(u32::MAX),
+            head: TaggedHead::new(u32::MAX),
             count: AtomicU32::new(0),
-            _padding: [0; 64 - 8],
+            _padding: [0; 64 - 12],
         }
     }
 }
@@ -671,7 +672,7 @@ impl LockFreePool {
             
             // Lock-free compare-exchange loop
             loop {
-                let current_head = head.head.load(Ordering::Acquire);
+                let (current_head, snapshot) = head.head.load_tagged(Ordering::Acquire);
                 if current_head == u32::MAX {
                     break; // No free blocks
                 }
@@ -686,7 +687,7 @@ impl LockFreePool {
                 
                 // Try to update head atomically
                 match head.head.compare_exchange_weak(
-                    current_head,
+                    snapshot,
                     next_head,
                     Ordering::Release,
                     Ordering::Relaxed
@@ -724,7 +725,7 @@ impl LockFreePool {
             
             // Lock-free insertion
             loop {
-                let current_head = head.head.load(Ordering::Acquire);
+                let (current_head, snapshot) = head.head.load_tagged(Ordering::Acquire);
 
                 // Write next pointer into freed block
                 unsafe {
@@ -736,7 +737,7 @@ impl LockFreePool {
                 
                 // Try to update head atomically
                 match head.head.compare_exchange_weak(
-                    current_head,
+                    snapshot,
                     offset.0,
                     Ordering::Release,
                     Ordering::Relaxed
